@@ -1004,6 +1004,23 @@ func (p *simPeer) dropSession(kind string) bool {
 	}
 	// a neighbour that ends the session itself is not owed the Maximum-Prefixes NOTIFICATION
 	// that has not reached it yet
+	p.forgoLimitNotification()
+	switch kind {
+	case "reset":
+		p.w.net.stats.fire("conn_reset")
+		p.w.net.resetPair(c)
+	case "notify":
+		c.Write(notificationBytes(6, 4, nil))
+		c.Close()
+	default:
+		c.Close()
+	}
+	return true
+}
+
+// forgoLimitNotification: the session is being ended by something else (the neighbour itself, the
+// operator) while a Maximum-Prefixes NOTIFICATION is still owed: it may or may not arrive.
+func (p *simPeer) forgoLimitNotification() {
 	p.mu.Lock()
 	if p.limitHit {
 		got := 0
@@ -1019,17 +1036,6 @@ func (p *simPeer) dropSession(kind string) bool {
 		}
 	}
 	p.mu.Unlock()
-	switch kind {
-	case "reset":
-		p.w.net.stats.fire("conn_reset")
-		p.w.net.resetPair(c)
-	case "notify":
-		c.Write(notificationBytes(6, 4, nil))
-		c.Close()
-	default:
-		c.Close()
-	}
-	return true
 }
 
 func (p *simPeer) waitDown(max time.Duration) {
